@@ -1,6 +1,6 @@
 from props import tu, run
 
-_PARTS = 8
+_PARTS = 12
 
 CFG = dict(
     level="exploration",
@@ -18,6 +18,10 @@ CFG = dict(
     # bin-width sweep (parts 5, 6): gray8/gray8s/rgb8/rgb8s hold every 8-bit channel value, gray16/gray16s every bin boundary
     # k*w-1, k*w, k*w+1; widths 1..256 (all of them for 8 bit in both tiers and for 16 bit in thorough; 1..48 + primes +
     # powers of two + multiples of 25/41 in quick for 16 bit) plus 257..65535 samples; all 16 mask/limit/accumulate/dense variants
+    # parts 8, 9: the source is read-only for every fill entry point (histogram::fill, fill_histogram with all arguments / <dims> /
+    # defaults, std vector/array/map fillers; mutable view and const_view; interleaved and planar gray8, rgb8, rgb16, rgb8-planar,
+    # rgb8s-planar, rgba16-planar, cmyk8-planar; bin widths 1,2,3,5,41; +-mask +-limits): the whole underlying image is compared
+    # before/after (keys source-modified.<type>.<entry>), and two fills from the same view give twice (accumulate) / the same (replace) bins
     level_note="contents, masks and limit boxes are seeded samples within each (type, shape, bin width, variant) class; trusts the std::map oracle",
     technique="differential run of the real histogram code against a std::map<key,count> loop model, ASan/UBSan build",
     rule=("one case per (pixel type, view shape w x h); inside: bin widths x content classes (non-negative / with negative values "
@@ -41,9 +45,10 @@ CFG = dict(
     # the TUs that exercise the std::vector filler are compiled as a whole with -D_GLIBCXX_SANITIZE_VECTOR, so that ASan also
     # reports writes into reserved-but-unsized vector capacity
     tus=[tu("c19_asan%d" % k, "harness/c19_histogram.cpp", "asan",
-            extra=["-DC19_PART=%d" % k] + (["-D_GLIBCXX_SANITIZE_VECTOR"] if k in (4, 7) else [])) for k in range(_PARTS)],
-    runs=[run("c19_asan%d" % k, shards=[4, 4, 4, 4, 8, 8, 8, 8][k],
-              min_cases={"quick": [196, 98, 98, 98, 196, 1024, 200, 128][k], "thorough": [400, 200, 200, 200, 400, 1024, 1100, 512][k]}) for k in range(_PARTS)],
+            extra=["-DC19_PART=%d" % k] + (["-D_GLIBCXX_SANITIZE_VECTOR"] if k in (4, 7) else [])) for k in range(_PARTS)]
+        + [tu("c19_probe_const_planar", "harness/c19_histogram.cpp", "asan", extra=["-DC19_PART=12"], probe="fill.const-planar-view")],
+    runs=[run("c19_asan%d" % k, shards=[4, 4, 4, 4, 8, 8, 8, 8, 4, 4, 4, 4][k],
+              min_cases={"quick": [196, 98, 98, 98, 196, 1024, 200, 128, 64, 48, 64, 48][k], "thorough": [400, 200, 200, 200, 400, 1024, 1100, 512, 144, 108, 144, 108][k]}) for k in range(_PARTS)],
     require_obs=["fill.dense.accumulate*", "fill.dense.replace*", "fill.sparse.accumulate*", "fill.sparse.replace.mask.limits",
                  "fill.dense-noop.*", "std.accumulate", "std.replace",
                  "content.neg-nonmultiple.bw-pow2", "content.neg-nonmultiple.bw-other",
@@ -51,6 +56,7 @@ CFG = dict(
                  "std-seq.vector.accumulate.shorter.d16", "std-seq.vector.accumulate.exact.d*", "std-seq.vector.accumulate.longer.d8",
                  "std-seq.vector.replace.shorter.d16", "std-seq.vector.replace.longer.d8", "std-seq.map.accumulate.empty.d*",
                  "std-seq.map.accumulate.filled.d*", "std-seq.map.replace.filled.d*", "std-seq.array.accumulate.d8", "std-seq.array.accumulate.d16",
+                 "source-const.rgb8-planar", "source-const.rgba16-planar", "source-const.gray8", "source.gray8", "source.rgb8", "source.rgb16", "source.rgb8-planar", "source.rgb8s-planar", "source.rgba16-planar", "source.cmyk8-planar",
                  "binning.8bit.signed.bw>=41", "binning.8bit.unsigned.bw>=41", "binning.16bit.signed.bw>=41", "binning.16bit.unsigned.bw>=41",
                  "post.normalized.d1.fractional", "post.normalized.d2.fractional", "post.normalized.d3.fractional", "post.normalized.d4.fractional",
                  "cumulative.corner.normalized.d1", "cumulative.corner.normalized.d2", "cumulative.corner.normalized.d3", "cumulative.corner.normalized.d4"],
